@@ -181,20 +181,20 @@ pub fn run_check(spec: &CheckSpec, ctx: &Ctx) -> i32 {
         );
         if let Some(e) = &rep.harness_error {
             eprintln!("HARNESS-ERROR: {e}");
-            println!("HARNESS-ERROR property={} {}", spec.property, e);
+            crate::outln!("HARNESS-ERROR property={} {}", spec.property, e);
             code = 2;
         }
         for (idx, (c, v)) in &rep.known_hits {
             let f = &ctx.known.findings[*idx];
-            println!(
+            crate::outln!(
                 "KNOWN-FINDING: property={} oracle={} key={} hits={} — {}",
                 f.property, v.oracle, f.key, c, f.description
             );
         }
         if let Some((v, path)) = &rep.violation {
             violations += 1;
-            println!("VIOLATION property={} replay={}", v.property, path);
-            println!(
+            crate::outln!("VIOLATION property={} replay={}", v.property, path);
+            crate::outln!(
                 "  oracle={} key={} step={} detail={}",
                 v.oracle, v.key, v.step, v.detail
             );
@@ -211,7 +211,7 @@ pub fn run_check(spec: &CheckSpec, ctx: &Ctx) -> i32 {
     let wall = t0.elapsed().as_secs_f64();
     write_evidence(&ctx.verif_dir, spec, ctx, &reports, wall, violations);
     if code == 0 {
-        println!(
+        crate::outln!(
             "OK property={} tier={} seed={} wall={:.1}s",
             spec.property,
             ctx.tier.as_str(),
@@ -234,7 +234,7 @@ pub fn cli_main(registry: &dyn Fn(&str) -> Option<CheckSpec>, all: &[&str]) -> !
     match cmd {
         "list" => {
             for p in all {
-                println!("{p}");
+                crate::outln!("{p}");
             }
             std::process::exit(0);
         }
@@ -304,24 +304,24 @@ pub fn cli_main(registry: &dyn Fn(&str) -> Option<CheckSpec>, all: &[&str]) -> !
                 if let Some(out) = part.replay(&file, &known) {
                     if !quiet {
                         for l in &out.history {
-                            println!("{l}");
+                            crate::outln!("{l}");
                         }
                     }
                     if let Some(p) = out.panic {
-                        println!("PANIC {p}");
+                        crate::outln!("PANIC {p}");
                         std::process::exit(2);
                     }
                     match out.violation {
                         Some(v) => {
-                            println!("VIOLATION property={} replay={}", v.property, path);
-                            println!(
+                            crate::outln!("VIOLATION property={} replay={}", v.property, path);
+                            crate::outln!(
                                 "  oracle={} key={} step={} detail={}",
                                 v.oracle, v.key, v.step, v.detail
                             );
                             std::process::exit(1);
                         }
                         None => {
-                            println!("NOT-REPRODUCED property={} replay={}", file.property, path);
+                            crate::outln!("NOT-REPRODUCED property={} replay={}", file.property, path);
                             std::process::exit(0);
                         }
                     }
@@ -356,7 +356,7 @@ pub fn cli_main(registry: &dyn Fn(&str) -> Option<CheckSpec>, all: &[&str]) -> !
                     for x in &a {
                         h = crate::rng::mix(&[h, *x]);
                     }
-                    println!(
+                    crate::outln!(
                         "DET property={} scenario={} runs={} batch={:016x} in_process_diffs={}",
                         p,
                         part.scenario_name(),
